@@ -129,8 +129,10 @@ def run(ctx: core.Ctx):
     rng = random.Random(ctx.seed)
     ml = 2 if ctx.quick else 3
     head = "SPECIFICATION Spec\nCONSTANTS MaxLen = {ml}\n  FromFile = {ff}\n  Emit = {e}\n"
-    ctx.expect_holds(ctx.tlc("MC_Weighted", write_cfg("MC_Weighted", head.format(ml=ml, ff="FALSE", e="FALSE") + "".join(f"INVARIANT {i}\n" for i in INVS) + "CHECK_DEADLOCK FALSE\n"), workers=16, timeout=3000), "MC_Weighted")
-    g = ctx.tlc("MC_Weighted", write_cfg("Gen_Weighted", head.format(ml=2, ff="FALSE", e="TRUE") + "INVARIANT EmitInv\nCHECK_DEADLOCK FALSE\n"), workers=1, timeout=3000)
+    if ml > 2:
+        ctx.expect_holds(ctx.tlc("MC_Weighted", write_cfg("MC_Weighted3", head.format(ml=ml, ff="FALSE", e="FALSE") + "".join(f"INVARIANT {i}\n" for i in INVS) + "CHECK_DEADLOCK FALSE\n"), workers=16, timeout=3400), "MC_Weighted")
+    g = ctx.tlc("MC_Weighted", write_cfg("MC_Weighted", head.format(ml=2, ff="FALSE", e="TRUE") + "".join(f"INVARIANT {i}\n" for i in INVS) + "INVARIANT EmitInv\nCHECK_DEADLOCK FALSE\n"), workers=16, timeout=3000)
+    ctx.expect_holds(g, "MC_Weighted")
     if len(g.emitted) < 20000:
         raise MachineryError(f"only {len(g.emitted)} weighted cases emitted")
     tv, tz = mirror_fns(T)
@@ -153,10 +155,12 @@ def run(ctx: core.Ctx):
         n = rng.randint(3, 6)
         ag = rng.choice(AGGRS)
         dd = degs if ag in ("Maximum", "BoundedSum", "DrasticSum", "NilpotentMaximum", "UnboundedSum", "none") else [F(0), F(1, 2), F(1)]
+        if ag == "HamacherSum":
+            dd = [F(0), F(1, 2)]  # (a+b-2ab)/(1-ab) cancels catastrophically next to (1,1): repeated degrees of 1 are ill-conditioned in binary64
         file_cases.append({"acts": [{"t": rng.choice(fam), "d": from_number(rng.choice(dd))} for _ in range(n)],
                            "aggr": ag, "type": rng.choice(["Automatic", "TakagiSugeno", "Tsukamoto"]), "cls": rng.choice(["WeightedAverage", "WeightedSum"])})
     gfs = ctx.tlc_cases("MC_Weighted", write_cfg("File_Weighted", head.format(ml=0, ff="TRUE", e="TRUE") + "".join(f"INVARIANT {i}\n" for i in INVS) + "INVARIANT EmitInv\nCHECK_DEADLOCK FALSE\n"),
-                        file_cases, label="weighted", workers=1, timeout=3000)
+                        file_cases, label="weighted", workers=16, timeout=3000)
     file_emitted = []
     for gf in gfs:
         ctx.expect_holds(gf, "MC_Weighted[file]")
